@@ -23,7 +23,8 @@ const kfUnsigned = "KF-C02-02"
 
 // name pool: index -> name. 0..15 ordinary, then awkward ones, last four = two lookup3-colliding pairs.
 var names = sync.OnceValue(func() []string {
-	n := []string{"a", "b", "c", "d", "e", "f", "g", "h", "i", "j", "k", "l", "units", "long_name", "scale", "offset",
+	// ("a " and "units ": names may end in blanks, and then differ from the names without them)
+	n := []string{"a", "b", "c", "d", "e", "f", "g", "a ", "i", "j", "k", "units ", "units", "long_name", "scale", "offset",
 		"abcdefghijkl", strings.Repeat("x", 24), strings.Repeat("y", 36), "ünï-名前", strings.Repeat("L", 200), "with space", "x/y", "A"}
 	first := map[uint32]string{}
 	pairs := 0
